@@ -130,6 +130,7 @@ static rc::Gen<HistCase> genCase(int tier)
         p.maxBatch = tier ? 10 : 6;
         p.frameBudget = 5000;
         p.allowEmpty = true;
+        p.allowErrorFlag = true;
         p.beyond16Bit = true;
         int n = *range<int>(0, tier ? 6 : 4);
         for (int i = 0; i < n; ++i)
